@@ -346,6 +346,64 @@ fn invocations(dir: &std::path::Path) -> Vec<Inv> {
             }
         }
     }
+    // argument order: the positional pair, the schedule options and an input option in every order (also
+    // with an option between the two positionals and in the --opt=value spelling), with and without a
+    // following verify block; what is computed must not depend on the order
+    {
+        let p = 3usize; // the ISR program
+        let n = 120usize;
+        let file = files[p].1.clone();
+        let groups: [Vec<String>; 4] = [
+            vec![file.clone(), n.to_string()],
+            vec!["--interrupt".into(), "60".into()],
+            vec!["--reset".into(), "100".into()],
+            vec!["--fc".into(), "7".into()],
+        ];
+        let cfg = MachineConfig { input_fc: 7, ..Default::default() };
+        let (m, cycles) = ref_run(PROGS[p].1, &cfg, n, &[60], &[100]);
+        let mut orders: Vec<Vec<usize>> = vec![];
+        fn perms(cur: &mut Vec<usize>, used: &mut [bool; 4], out: &mut Vec<Vec<usize>>) {
+            if cur.len() == 4 {
+                out.push(cur.clone());
+                return;
+            }
+            for i in 0..4 {
+                if !used[i] {
+                    used[i] = true;
+                    cur.push(i);
+                    perms(cur, used, out);
+                    cur.pop();
+                    used[i] = false;
+                }
+            }
+        }
+        perms(&mut vec![], &mut [false; 4], &mut orders);
+        let mut arg_lists: Vec<(String, Vec<String>)> = vec![];
+        for o in &orders {
+            let mut a: Vec<String> = vec!["run".into()];
+            for &g in o {
+                a.extend(groups[g].iter().cloned());
+            }
+            arg_lists.push((format!("order {:?}", o), a));
+        }
+        // an option between the two positionals; --opt=value spellings
+        arg_lists.push(("split positionals".into(), vec!["run".into(), file.clone(), "--interrupt".into(), "60".into(), n.to_string(), "--reset".into(), "100".into(), "--fc".into(), "7".into()]));
+        arg_lists.push(("split positionals 2".into(), vec!["run".into(), file.clone(), "--fc".into(), "7".into(), "--reset".into(), "100".into(), n.to_string(), "--interrupt".into(), "60".into()]));
+        arg_lists.push(("equals spelling".into(), vec!["run".into(), file.clone(), n.to_string(), "--interrupt=60".into(), "--reset=100".into(), "--fc=7".into()]));
+        arg_lists.push(("equals spelling first".into(), vec!["run".into(), "--reset=100".into(), "--interrupt=60".into(), "--fc=7".into(), file.clone(), n.to_string()]));
+        for (name, a) in arg_lists {
+            for verify in 0..3 {
+                let mut args = a.clone();
+                let mut ok = true;
+                if verify > 0 {
+                    let shown = if verify == 1 { m.bus().output_ff() } else { m.bus().output_ff().wrapping_add(1) };
+                    args.extend(["verify".to_string(), "--ff".to_string(), shown.to_string()]);
+                    ok = verify == 1;
+                }
+                v.push(Inv { args, expect: Some((cycles, n, m.state(), m.bus().output_fe(), m.bus().output_ff(), ok)), name: format!("argument {} verify={}", name, verify) });
+            }
+        }
+    }
     // every budget 0..=40 on every program
     for (p, f) in &files {
         for n in 0..=40usize {
@@ -594,7 +652,7 @@ pub fn run() {
             let _ = std::fs::create_dir_all(&dir);
             let mut invs = invocations(&dir);
             if quick {
-                let keep: Vec<Inv> = invs.iter().enumerate().filter(|(i, v)| v.expect.is_none() || i % 3 == 0 || v.name.contains("verify") || v.name.starts_with("--") || v.name.starts_with("board") || v.name.starts_with("literal")).map(|(_, v)| v.clone()).collect();
+                let keep: Vec<Inv> = invs.iter().enumerate().filter(|(i, v)| v.expect.is_none() || i % 3 == 0 || v.name.contains("verify") || v.name.starts_with("--") || v.name.starts_with("board") || v.name.starts_with("literal") || v.name.starts_with("argument")).map(|(_, v)| v.clone()).collect();
                 invs = keep;
             }
             nproc = invs.len() as u64;
